@@ -316,9 +316,50 @@ func (m *Map) LoadAndDelete(k interface{}) (interface{}, bool) {
 }
 func (m *Map) Range(f func(k, v interface{}) bool) { m.op("Range"); m.real.Range(f) }
 
+// HiddenOnce is the state of one OnceFunc / OnceValue / OnceValues object. With the real
+// primitives that state lives in a closure, out of reach of the package-state fingerprint and of
+// the in-process state reset; the shims therefore register it here.
+type HiddenOnce struct {
+	Once   *Once
+	Values []interface{} // pointers to the memoised results
+	reset  func()
+}
+
+var (
+	hiddenMu sync.Mutex
+	hidden   []*HiddenOnce
+)
+
+func registerHidden(h *HiddenOnce) {
+	hiddenMu.Lock()
+	hidden = append(hidden, h)
+	hiddenMu.Unlock()
+}
+
+// Hidden returns the registered objects in creation order.
+func Hidden() []*HiddenOnce {
+	hiddenMu.Lock()
+	defer hiddenMu.Unlock()
+	return append([]*HiddenOnce(nil), hidden...)
+}
+
+// ResetHidden forgets the objects registered after the first n and returns the first n to
+// their initial (not yet run) state.
+func ResetHidden(n int) {
+	hiddenMu.Lock()
+	defer hiddenMu.Unlock()
+	if n < len(hidden) {
+		hidden = hidden[:n]
+	}
+	for _, h := range hidden {
+		h.reset()
+	}
+}
+
 // OnceFunc mirrors sync.OnceFunc.
 func OnceFunc(f func()) func() {
-	var o Once
+	o := new(Once)
+	registerHidden(&HiddenOnce{Once: o, reset: func() { *o = Once{} }})
 	return func() { o.Do(f) }
 }
 
@@ -382,21 +423,30 @@ func (m *Map) Clear() { m.op("Clear"); m.real.Clear() }
 
 // OnceValue mirrors sync.OnceValue.
 func OnceValue[T any](f func() T) func() T {
-	var o Once
-	var v T
+	o := new(Once)
+	v := new(T)
+	registerHidden(&HiddenOnce{Once: o, Values: []interface{}{v}, reset: func() {
+		var z T
+		*o, *v = Once{}, z
+	}})
 	return func() T {
-		o.Do(func() { v = f() })
-		return v
+		o.Do(func() { *v = f() })
+		return *v
 	}
 }
 
 // OnceValues mirrors sync.OnceValues.
 func OnceValues[T1, T2 any](f func() (T1, T2)) func() (T1, T2) {
-	var o Once
-	var a T1
-	var b T2
+	o := new(Once)
+	a := new(T1)
+	b := new(T2)
+	registerHidden(&HiddenOnce{Once: o, Values: []interface{}{a, b}, reset: func() {
+		var z1 T1
+		var z2 T2
+		*o, *a, *b = Once{}, z1, z2
+	}})
 	return func() (T1, T2) {
-		o.Do(func() { a, b = f() })
-		return a, b
+		o.Do(func() { *a, *b = f() })
+		return *a, *b
 	}
 }
